@@ -106,6 +106,9 @@ type Out struct {
 	Err  string `json:"err"`
 	Val  string `json:"val,omitempty"`
 	Note string `json:"note,omitempty"` // not compared
+	// EPath holds the path fields embedded in the returned error
+	// (PathError.Path, LinkError.Old|New), compared only where a property says so.
+	EPath string `json:"epath,omitempty"`
 }
 
 func (o Out) String() string {
@@ -254,13 +257,13 @@ func (r *Runner) Do(o Op) (out Out) {
 	f := r.FS
 	perm := ModeFromBits(o.Perm)
 	h := r.Handles[o.H]
-	e := func(err error) Out { return Out{Err: ErrKind(err)} }
+	e := func(err error) Out { return Out{Err: ErrKind(err), EPath: ErrPaths(err)} }
 	ev := func(err error, v string) Out {
 		k := ErrKind(err)
 		if k != "ok" && k != "EOF" {
 			// values that accompany an error are not part of the comparison
 			// unless they are a byte count (handled by the callers below)
-			return Out{Err: k}
+			return Out{Err: k, EPath: ErrPaths(err)}
 		}
 		return Out{Err: k, Val: v}
 	}
